@@ -597,25 +597,9 @@ fn step(cx: &Ctx, root: usize, ops: &[Op], h: &[usize]) -> Option<(Vec<u8>, u64)
     None
 }
 
-fn main() {
-    let run = Run::new("C12", "model_checking");
-    quiet_panics();
-    // hang breaker: a subject call that never returns (e.g. a self-deadlock) would block the search outside any budget check
-    let hard_limit = run.tier.pick(170, 2700);
-    std::thread::spawn(move || {
-        std::thread::sleep(Duration::from_secs(hard_limit));
-        machinery_exit(&format!("C12: no result after {hard_limit} s — a call into the subject did not return (deadlock?)"));
-    });
-    let distinct = Distinct::default();
-    let root_dir = PathBuf::from(format!("/dev/shm/vh-c12-{}", std::process::id()));
-    let _ = std::fs::remove_dir_all(&root_dir);
+type Part1 = (Vec<BfsStats>, u64, bool, Vec<Op>, Vec<Req>, Vec<(u8, i64)>, [(usize, usize); 2], usize);
 
-    // ---- Part 2 first (small, bounded): loom bodies in child processes
-    let loom = run_loom(&run, "C12", run.tier.pick(40, 900));
-    if !loom.incomplete.is_empty() {
-        run.cap_hit(format!("loom bodies stopped by their wall-clock cap: {:?}", loom.incomplete));
-    }
-
+fn part1_histories(run: &Run, distinct: &Distinct, root_dir: &PathBuf) -> Part1 {
     // ---- Part 1: history BFS
     // request alphabet: peers x sequences x (hash, timestamp offset); quick keeps one hash for out-of-window timestamps
     let stamp_variants: Vec<(u8, i64)> = run.tier.pick(vec![(1, 0), (2, 0), (1, -3601), (1, 61)], vec![(1, 0), (2, 0), (1, -3601), (2, -3601), (1, 61), (2, 61), (1, 60)]);
@@ -662,7 +646,7 @@ fn main() {
     // one wall-clock budget per initial store, so that a slow machine cannot starve the second search
     let total = Duration::from_secs(run.tier.pick(52, 1500)).saturating_sub(run.elapsed());
     let budgets = [Budget::new(total.mul_f64(0.7)), Budget::new(total)];
-    let cx = Ctx { run: &run, distinct: &distinct, root_dir: root_dir.clone() };
+    let cx = Ctx { run, distinct, root_dir: root_dir.clone() };
     let replays = AtomicU64::new(0);
     let mut all_stats = Vec::new();
     for root in 0..2usize {
@@ -688,8 +672,35 @@ fn main() {
         );
         all_stats.push(stats);
     }
-    let _ = std::fs::remove_dir_all(&root_dir);
+    let _ = std::fs::remove_dir_all(root_dir);
     let budget_hit = budgets.iter().any(|b| b.was_hit());
+    (all_stats, replays.load(Ordering::Relaxed), budget_hit, ops, reqs, stamp_variants, depths, n_core)
+}
+
+fn main() {
+    let run = Run::new("C12", "model_checking");
+    quiet_panics();
+    // hang breaker: a subject call that never returns (e.g. a self-deadlock) would block the search outside any budget check
+    let hard_limit = run.tier.pick(170, 2700);
+    std::thread::spawn(move || {
+        std::thread::sleep(Duration::from_secs(hard_limit));
+        machinery_exit(&format!("C12: no result after {hard_limit} s — a call into the subject did not return (deadlock?)"));
+    });
+    let distinct = Distinct::default();
+    let root_dir = PathBuf::from(format!("/dev/shm/vh-c12-{}", std::process::id()));
+    let _ = std::fs::remove_dir_all(&root_dir);
+
+    // ---- Part 2 (loom bodies in child processes) runs beside Part 1
+    let loom_thread = std::thread::scope(|sc| {
+        let loom_handle = sc.spawn(|| run_loom(&run, "C12", run.tier.pick(40, 900)));
+        let part1 = part1_histories(&run, &distinct, &root_dir);
+        (loom_handle.join().unwrap_or_else(|_| machinery_exit("loom driver thread panicked")), part1)
+    });
+    let (loom, (all_stats, replays, budget_hit, ops, reqs, stamp_variants, depths, n_core)) = loom_thread;
+    if !loom.incomplete.is_empty() {
+        run.cap_hit(format!("loom bodies stopped by their wall-clock cap: {:?}", loom.incomplete));
+    }
+
     if budget_hit {
         run.cap_hit(format!("wall-clock budget; BFS completed depths {:?} of {:?}", all_stats.iter().map(|s| s.completed_depth).collect::<Vec<_>>(), depths.iter().map(|d| d.1).collect::<Vec<_>>()));
         if all_stats[0].completed_depth == 0 {
@@ -711,7 +722,7 @@ fn main() {
     let coverage = cov(vec![
         ("states", json!(states + loom.states)),
         ("transitions", json!(transitions + loom.states)),
-        ("traces_validated_against_impl", json!(replays.load(Ordering::Relaxed) + loom.states)),
+        ("traces_validated_against_impl", json!(replays + loom.states)),
         ("samples", json!(samples)),
         ("exhaustive", json!(!budget_hit && loom.incomplete.is_empty())),
         ("evaluations", json!(distinct.evaluations())),
